@@ -106,6 +106,8 @@ def scenario(draw):
     fmod = draw(st.sampled_from(['m0', 'm1']))
     fpar = draw(st.sampled_from(['a', 'b']))
     scopes = [None, fmod, f'{fmod}:_{fpar}'] * 3 + SCOPES
+    if draw(st.integers(0, 5)) == 0:
+        scopes = [None]      # nobody ever uses module or parameter scope on this node
     prefix_twin = draw(st.integers(0, 3)) == 0     # part of the traffic goes to the module whose name starts with the other's name
     if prefix_twin:
         scopes += ['m0', 'm0x', f'm0x:_{fpar}', 'm0'] * 2
@@ -158,10 +160,10 @@ def run_scenario(case, preempt=None):
 
         def mk(modname):
             def read_a(self):
-                return readvals.pop((modname, 'a'))
+                return readvals.pop((dsched.d_current_thread().name, modname, 'a'))
 
             def read_b(self):
-                v = readvals.pop((modname, 'b'))
+                v = readvals.pop((dsched.d_current_thread().name, modname, 'b'))
                 if v < 0:
                     raise HardwareError(f'failure {-v}')
                 return v
@@ -207,13 +209,19 @@ def run_scenario(case, preempt=None):
                     mobj = kit.modules[mod]
                     v = nextval()
                     if op == 'assign' or par == 'hid':
-                        setattr(mobj, par, v)
+                        try:
+                            setattr(mobj, par, v)
+                        except Exception as e:   # noqa - an assignment in the driver must not fail because of the connections
+                            out.setdefault('driver_errors', []).append(f'{mod}.{par} = {v}: {e!r}')
                     elif op == 'read':
-                        readvals[(mod, par)] = v
-                        getattr(mobj, 'read_' + par)()
+                        readvals[(dsched.d_current_thread().name, mod, par)] = v      # (what this driver thread's hardware returns)
+                        try:
+                            getattr(mobj, 'read_' + par)()
+                        except Exception as e:   # noqa
+                            out.setdefault('driver_errors', []).append(f'{mod}.read_{par}(): {e!r}')
                     else:
                         if par == 'b':
-                            readvals[(mod, 'b')] = -v
+                            readvals[(dsched.d_current_thread().name, mod, 'b')] = -v
                             try:
                                 mobj.read_b()
                             except HardwareError:
@@ -279,6 +287,9 @@ def check(ctx, case, preempt=None):
         sub['preempt'] = {str(k): v for k, v in preempt.items()}
     if out['error'] is not None:
         ctx.finding(f'run:{type(out["error"]).__name__}', sub, repr(out['error'])[:400])
+        return
+    if out.get('driver_errors'):
+        ctx.finding('driver-update-raises', sub, repr(out['driver_errors'])[:300])
         return
     truth = out['truth']       # (step, mod, pname, value)
     exported = {(m, p) for m in ('m0', 'm1', 'm0x') for p in ('a', 'b', 'value', 'status', 'pollinterval')}
@@ -359,7 +370,9 @@ def check(ctx, case, preempt=None):
                     return
                 subs.add(scope)
                 for k in newscope:
-                    since.setdefault(k, step)
+                    # from the snapshot message of this parameter on every change has to arrive (not only from the reply on)
+                    snap = [s_ for s_, kk, _ in pending_updates if kk == k]
+                    since.setdefault(k, min(snap) if snap else step)
                     ended.pop(k, None)
             elif kind == 'deactivate' and action == 'inactive':
                 before = {k for k in exported if in_scope(subs, k[0], wire(k[1]))}
@@ -472,6 +485,23 @@ def run_shard(ctx, shard):
         systematic(ctx, shard)
 
 
+def valid_case(case):
+    try:
+        for script in case['conns']:
+            for item in script:
+                if item[0] not in ('activate', 'deactivate', 'idn', 'ping', 'help') or item[1] not in SCOPES:
+                    return False
+        for ops in case['drivers']:
+            for item in ops:
+                if item[0] not in ('assign', 'read', 'error') or item[1] not in ('m0', 'm1', 'm0x') or item[2] not in ('a', 'b', 'hid'):
+                    return False
+        return bool(case['conns'])
+    except (KeyError, TypeError, IndexError):
+        return False
+
+
 def run_case(ctx, case):
+    if not valid_case(case):
+        return
     pre = case.get('preempt')
     check(ctx, {k: v for k, v in case.items() if k != 'preempt'}, {int(k): v for k, v in pre.items()} if pre else None)
